@@ -7,6 +7,7 @@ import SecsModel.Spec.E30Control
 ```
 gemctrl run  <initial_control_state> <LOCAL|REMOTE> <inputs>        model
 gemctrl spec <initial_control_state> <LOCAL|REMOTE> <inputs>        E30 table (Spec.E30), same input language
+gemctrl bare <initial_control_state> <LOCAL|REMOTE> <m,m,…>         bare ControlStateMachine, public methods; step = <state>:<active bits>:<remembered>:<ok|class>
 inputs := input,input,…  | -
 input  := on.answers | on.silent | on.aborts | on.nocomm | begin | probe.answers | probe.silent | probe.aborts | probe.nocomm
         | off | local | remote | s1f15 | s1f17 | linklost
@@ -102,7 +103,23 @@ def specDefault : String → Option Default
   | "EQUIPMENT_OFFLINE" => some .equipmentOffline | "ATTEMPT_ONLINE" => some .attemptOnline
   | "HOST_OFFLINE" => some .hostOffline | "ONLINE" => some .online | _ => none
 
+/-- the bare `ControlStateMachine` (no capability handler on ATTEMPT_ONLINE): public methods called one after the other -/
+def bareShow : CState → List String → List String → List String
+  | _, [], acc => acc.reverse
+  | c, m :: rest, acc =>
+    match runMethod c none m with
+    | (c', outs, _) =>
+      let res := match outs.filterMap (fun o => match o with | .raised e => some (showFail e) | _ => none) with
+        | e :: _ => e
+        | [] => "ok"
+      let bits := String.ofList (c'.flags.map fun b => if b then '1' else '0')
+      bareShow c' rest (s!"{stateName CtrlSM c'.cur}:{bits}:{if c'.remote then "REMOTE" else "LOCAL"}:{res}" :: acc)
+
 def handle : List String → String
+  | ["bare", initial, sub, ms] =>
+    if sub != "LOCAL" && sub != "REMOTE" then "bad-op" else
+    let c0 : CState := { cur := (initOf CtrlSM).cur, flags := SecsModel.Model.SM.flags ctrl (initOf CtrlSM), remote := sub == "REMOTE", initial := initial }
+    "ok " ++ "|".intercalate (bareShow c0 (if ms == "-" then [] else ms.splitOn ",") [])
   | ["run", initial, sub, ins] =>
     match parseInputs ins with
     | some is =>
